@@ -114,6 +114,9 @@ type loopInfo struct {
 	contract *LoopContract
 	pos      token.Pos
 	nback    int
+	unrolling bool     // being unrolled ("loop k unroll n"): back edges are collected, not cut
+	collect   []edgeIn // back edges of the current unrolled iteration
+	round     int      // current round of the unrolling
 }
 
 type Enc struct {
@@ -122,6 +125,7 @@ type Enc struct {
 	nfresh     int
 	obls       []*Obligation
 	abstracted map[string]int
+	unrolled   []string // loops executed round by round ("loop k unroll n") with an unwinding obligation
 	inlined    map[string]int
 	modular    map[string]int
 	trusted    map[string]int
@@ -177,6 +181,7 @@ type Enc struct {
 type splitCond struct {
 	c  T
 	at int
+	hint bool // given by a contract ("loop k split e"): tried first
 }
 
 func NewEnc(l *Loader) *Enc {
@@ -436,12 +441,13 @@ func (e *Enc) load(p Ptr, t types.Type) Val {
 			return sel(h, p.Ref)
 		})
 	case pElem:
+		prefix, _ := pathLeafPrefix(p.Sl.Elem, p.Path)
 		ls := leavesOf(t)
 		i := 0
 		return e.rebuild(t, func() T {
 			l := ls[i]
 			i++
-			m := e.getVar(e.cur, memKey(p.Sl.Elem, l.Name), memSort(l.Sort))
+			m := e.getVar(e.cur, memKey(p.Sl.Elem, joinLeaf(prefix, l.Name)), memSort(l.Sort))
 			return sel(sel(m, p.Sl.Arr), add(p.Sl.Off, p.Idx))
 		})
 	case pGlobal:
@@ -506,10 +512,11 @@ func (e *Enc) storeTo(p Ptr, t types.Type, v Val) {
 			e.setVarAt(key, p.Ref, store(h, p.Ref, ts[i]))
 		}
 	case pElem:
+		prefix, _ := pathLeafPrefix(p.Sl.Elem, p.Path)
 		ls := leavesOf(t)
 		ts := e.flatten(t, v)
 		for i, l := range ls {
-			key := memKey(p.Sl.Elem, l.Name)
+			key := memKey(p.Sl.Elem, joinLeaf(prefix, l.Name))
 			m := e.getVar(e.cur, key, memSort(l.Sort))
 			inner := sel(m, p.Sl.Arr)
 			e.setVarAt(key, p.Sl.Arr, store(m, p.Sl.Arr, store(inner, add(p.Sl.Off, p.Idx), ts[i])))
@@ -938,7 +945,7 @@ func (e *Enc) noteSplit(c T) {
 			return
 		}
 	}
-	e.splitConds = append(e.splitConds, splitCond{c, len(e.lines)})
+	e.splitConds = append(e.splitConds, splitCond{c: c, at: len(e.lines)})
 }
 
 func (e *Enc) mergeStates(ins []edgeIn, hint string) (T, *State) {
@@ -1044,10 +1051,16 @@ func (e *Enc) runBlocks(f *frame, order []*ssa.BasicBlock, within map[*ssa.Basic
 			continue // unreachable (or only reachable through cut edges)
 		}
 		delete(f.ins, b)
+		if li := f.loops[b]; li != nil && !li.unrolling && li.contract != nil && li.contract.Unroll > 0 && e.dry == 0 {
+			e.unrollLoop(f, li, order, ins)
+			continue
+		}
 		reach, st := e.mergeStates(ins, fmt.Sprintf("b%d", b.Index))
 		e.cur, e.reach = st, reach
-		if li := f.loops[b]; li != nil {
+		if li := f.loops[b]; li != nil && !li.unrolling {
 			e.enterLoop(f, li, order)
+		} else if li != nil && li.unrolling && e.dry == 0 {
+			e.unrollHead(f, li)
 		}
 		// phis first
 		for _, ins2 := range b.Instrs {
@@ -1093,6 +1106,11 @@ func (e *Enc) runBlocks(f *frame, order []*ssa.BasicBlock, within map[*ssa.Basic
 }
 
 func (e *Enc) addEdge(f *frame, from, to *ssa.BasicBlock, cond T) {
+	if to.Dominates(from) && f.loops[to] != nil && f.loops[to].unrolling {
+		li := f.loops[to]
+		li.collect = append(li.collect, edgeIn{cond: cond, st: e.cur.clone(), from: from})
+		return
+	}
 	if to.Dominates(from) && f.loops[to] != nil {
 		// back edge: check the invariant, cut
 		saved := e.reach
@@ -1159,7 +1177,7 @@ func (e *Enc) instr(f *frame, b *ssa.BasicBlock, in ssa.Instruction) {
 		p, ok := e.val(x.X).(Ptr)
 		st := deref(x.X.Type())
 		ft := st.Underlying().(*types.Struct).Field(x.Field).Type()
-		if !ok || p.K == pOpaque || p.K == pElem {
+		if !ok || p.K == pOpaque || (p.K == pElem && isByte(p.Sl.Elem)) {
 			e.abstract("fieldaddr-of-unknown-pointer")
 			f.vals[x] = Ptr{K: pOpaque, Ref: e.freshT("p", SBV64), Elem: ft}
 			return
